@@ -79,6 +79,10 @@ def gen_unit(rng):
     return u
 
 
+def rng_choice_col(unit):
+    return (".b", ".s", ".z", ".i", "(number? .n)")[len(unit["expr"]) % 5]
+
+
 def rows_of(o):
     return [jm.plain(r) for r in jm.read_rows(o.stdout)]
 
@@ -188,6 +192,21 @@ def run_unit(ctx, unit):
             return
         if len(obs[0].stdout) > 4:
             st.see("nontrivial", (mode, e))
+        if mode == "sort":
+            # the same, with only a low-cardinality column selected: consecutive rows then often carry equal selected values
+            # while the sort expression (which reads the input, not the selection) differs
+            narrow = rng_choice_col(unit)
+            obs = run([core.Case(pre + ["--select=" + narrow + "=s", opt + "=" + e + d], data),
+                       core.Case(pre + ["--select=" + narrow + "=s", "--select=" + e + "=c", opt + "=/c/" + d], data)])
+            if obs is None:
+                return
+            a = [jm.dumps(r.get("s", "<absent>")) for r in rows_of(obs[0])]
+            b = [jm.dumps(r.get("s", "<absent>")) for r in rows_of(obs[1])]
+            if a != b:
+                bad("sort-vs-select-narrow", "--sort-by E orders the rows differently from --sort-by /c/ (c = E) when only another column is selected",
+                    {"expr": e, "column": narrow, "by_expr": a[:12], "by_column": b[:12]})
+                return
+            st.count("narrow_sort_comparisons")
     elif mode == "split":
         obs = run([core.Case(["--select=" + e + "=c"], data), core.Case(["--split-by=" + e], data)])
         if obs is None:
